@@ -181,6 +181,16 @@ class Scenario:
                 scen.log.append(("out", name, scen.loop.time(), _freeze(x)))
                 return 5
             return f
+        if kind == "alt":
+            # a consumer that is still busy with every first piece and already finished with every second one
+            calls = [0]
+            pending = self.make_sink_fn("future", name)
+            finished = self.make_sink_fn("done", name)
+
+            def f(x):
+                calls[0] += 1
+                return pending(x) if calls[0] % 2 == 1 else finished(x)
+            return f
         if kind == "done":
             # a consumer that hands back an awaitable which has already completed
             def f(x):
@@ -317,6 +327,9 @@ class Producer:
             scen.on_emit_raised(self, i, x, e)
             return
         if r is None:
+            if getattr(self.stream, "asynchronous", None):
+                # `await stream.emit(x)` is the documented use of an asynchronous stream: emit must hand back something awaitable
+                scen.violations.append(Violation("emit-not-awaitable", scen.site(), "", dict(element=_freeze(x), returned=None)))
             scen.log.append(("emit-done", self.name, scen.loop.time(), _freeze(x)))
             self.completed.append((i, scen.loop.time()))
             scen.on_emit_done(self, i, x)
